@@ -109,3 +109,179 @@ Proof.
     assert (H3 : L * delta <= Rmax L ((L + 1) / 2) * delta) by (apply Rmult_le_compat_r; assumption).
     eapply Rle_trans; [exact H1|exact H3].
 Qed.
+
+(* ------------------------------------------------------------------ contraction implies success *)
+(** one step of the residual estimate: a sweep (damped or not) shrinks the sup-norm residual *)
+Lemma residual_step (n : nat) (F : vec -> vec) (L delta : R) (u : vec) (damped : bool) :
+  0 <= L -> 0 <= delta -> lipschitz n F L ->
+  (forall j, (j < n)%nat -> Rabs (F u j - u j) <= delta) ->
+  forall i, (i < n)%nat ->
+    Rabs (F (reportedR damped (F u) u) i - reportedR damped (F u) u i)
+      <= (if damped then (L + 1) / 2 else L) * delta.
+Proof.
+  intros HL Hdelta Hlip Hd i Hi. destruct damped; unfold reportedR.
+  - assert (Hvu : forall j, (j < n)%nat -> Rabs ((F u j + u j) / 2 - u j) <= delta / 2).
+    { intros j Hj. replace ((F u j + u j) / 2 - u j) with ((F u j - u j) / 2) by field.
+      unfold Rdiv. rewrite Rabs_mult, (Rabs_right (/ 2)) by lra. specialize (Hd j Hj). lra. }
+    pose proof (Hlip (fun j => (F u j + u j) / 2) u (delta / 2) Hvu i Hi) as H1.
+    replace (F (fun i0 => (F u i0 + u i0) / 2) i - (F u i + u i) / 2)
+      with ((F (fun i0 => (F u i0 + u i0) / 2) i - F u i) + (F u i - u i) / 2) by field.
+    eapply Rle_trans; [apply Rabs_triang|].
+    assert (H2 : Rabs ((F u i - u i) / 2) <= delta / 2).
+    { unfold Rdiv. rewrite Rabs_mult, (Rabs_right (/ 2)) by lra. specialize (Hd i Hi). lra. }
+    set (A := Rabs (F (fun i0 : nat => (F u i0 + u i0) / 2) i - F u i)) in *.
+    set (B := Rabs ((F u i - u i) / 2)) in *. lra.
+  - pose proof (Hlip (F u) u delta Hd i Hi) as H1. exact H1.
+Qed.
+
+(** the sweep loop of Step.v over R: same stop test, same damping rule, same cap test *)
+Inductive outR := OkR (v : vec) (sweeps : nat) | ConvergenceErrorR | OutOfFuelR.
+
+Fixpoint loopR (fuel n : nat) (F : vec -> vec) (tol : R) (cap : nat) (cur : vec) (rel : R) (j : nat) : outR :=
+  if Rle_dec rel tol then OkR cur j
+  else match fuel with
+       | O => OutOfFuelR
+       | S f =>
+           let w := F cur in
+           let rel' := errsumR n w cur in
+           let new' := reportedR (Nat.ltb 10 j) w cur in
+           if Nat.ltb cap (S j) then ConvergenceErrorR
+           else loopR f n F tol cap new' rel' (S j)
+       end.
+
+Definition run_loopR (n : nat) (F : vec -> vec) (tol : R) (cap : nat) (ini : vec) : outR :=
+  loopR (S cap) n F tol cap ini 1 0.
+
+(** bound on the residual at the start of sweep j: factor q while undamped (sweeps 0..10),
+    (q+1)/2 afterwards *)
+Fixpoint resbound (q D : R) (j : nat) : R :=
+  match j with
+  | O => D
+  | S i => (if Nat.ltb 10 i then (q + 1) / 2 else q) * resbound q D i
+  end.
+
+Lemma resbound_nonneg q D j : 0 <= q -> 0 <= D -> 0 <= resbound q D j.
+Proof.
+  intros Hq HD. induction j; simpl; [assumption|].
+  apply Rmult_le_pos; [|assumption]. destruct (Nat.ltb 10 j); lra.
+Qed.
+
+Lemma errsumR_small n w u d :
+  0 <= d -> d < 1 / 1000 -> (forall i, (i < n)%nat -> Rabs (w i - u i) <= d) -> errsumR n w u <= INR n * d.
+Proof.
+  intros Hd Hs. induction n; intros H.
+  - simpl. lra.
+  - rewrite S_INR. simpl errsumR. assert (IH : errsumR n w u <= INR n * d) by (apply IHn; intros i Hi; apply H; lia).
+    assert (Ht : termR (w n) (u n) <= d).
+    { unfold termR. specialize (H n ltac:(lia)). destruct (Rlt_dec (Rabs (w n - u n)) (1 / 1000)); [exact H|lra]. }
+    lra.
+Qed.
+
+Lemma loopR_converges n F q tol cap D :
+  0 <= q -> 0 <= D -> lipschitz n F q -> (1 <= cap)%nat ->
+  resbound q D (cap - 1) < 1 / 1000 -> INR n * resbound q D (cap - 1) <= tol ->
+  forall fuel j cur rel,
+    (fuel + j = S cap)%nat -> (j <= cap)%nat ->
+    ((j < cap)%nat -> forall i, (i < n)%nat -> Rabs (F cur i - cur i) <= resbound q D j) ->
+    (j = cap -> rel <= tol) ->
+    exists v m, loopR fuel n F tol cap cur rel j = OkR v m /\ (m <= cap)%nat.
+Proof.
+  intros Hq HD Hlip Hcap Hs Ht. induction fuel as [|f IH]; intros j cur rel Hf Hj Hinv Hlast.
+  - assert (j = S cap) by lia. lia.
+  - simpl. destruct (Rle_dec rel tol) as [Hr|Hr]; [eauto|].
+    assert (Hjc : (j < cap)%nat).
+    { destruct (Nat.eq_dec j cap) as [E|E]; [exfalso; apply Hr; now apply Hlast|lia]. }
+    assert (Hc : Nat.ltb cap (S j) = false) by (apply Nat.ltb_ge; lia). rewrite Hc.
+    apply IH; try lia.
+    + intros Hlt i Hi.
+      pose proof (residual_step n F q (resbound q D j) cur (Nat.ltb 10 j) Hq (resbound_nonneg q D j Hq HD) Hlip (Hinv Hjc) i Hi) as Hstep.
+      simpl resbound. exact Hstep.
+    + intros E. assert (Ej : j = (cap - 1)%nat) by lia. subst j.
+      eapply Rle_trans; [|exact Ht].
+      apply errsumR_small; [apply resbound_nonneg; assumption|exact Hs|exact (Hinv Hjc)].
+Qed.
+
+(* numeric part: with q <= 4/5, D <= 1e4, n <= 12 the bound after 399 sweeps is far below 1e-8 *)
+Lemma resbound_mono q q' D D' j : 0 <= q <= q' -> 0 <= D <= D' -> resbound q D j <= resbound q' D' j.
+Proof.
+  intros Hq HD. induction j; simpl; [lra|].
+  assert (H0 : 0 <= resbound q D j) by (apply resbound_nonneg; lra).
+  destruct (Nat.ltb 10 j).
+  - apply Rmult_le_compat; lra.
+  - apply Rmult_le_compat; lra.
+Qed.
+
+Lemma resbound_tail q D m : resbound q D (m + 11) = ((q + 1) / 2) ^ m * resbound q D 11.
+Proof.
+  induction m.
+  - change (0 + 11)%nat with 11%nat. simpl pow. ring.
+  - change (S m + 11)%nat with (S (m + 11)).
+    change (resbound q D (S (m + 11))) with ((if Nat.ltb 10 (m + 11) then (q + 1) / 2 else q) * resbound q D (m + 11)).
+    replace (Nat.ltb 10 (m + 11)) with true by (symmetry; apply Nat.ltb_lt; lia).
+    rewrite IHm. simpl pow. ring.
+Qed.
+
+Lemma pow_9_10_22 : (9 / 10) ^ 22 <= 1 / 10.
+Proof. simpl. lra. Qed.
+
+Lemma resbound_399 : resbound (4 / 5) 10000 399 <= 1 / 1000000000000.
+Proof.
+  replace 399%nat with (388 + 11)%nat by reflexivity. rewrite resbound_tail.
+  replace ((4 / 5 + 1) / 2) with (9 / 10) by field.
+  assert (H11 : resbound (4 / 5) 10000 11 <= 10000).
+  { simpl. lra. }
+  assert (H11p : 0 <= resbound (4 / 5) 10000 11) by (apply resbound_nonneg; lra).
+  replace 388%nat with (22 * 17 + 14)%nat by reflexivity.
+  rewrite pow_add, pow_mult.
+  assert (Ha : ((9 / 10) ^ 22) ^ 17 <= (1 / 10) ^ 17).
+  { apply pow_incr. split; [apply pow_le; lra|exact pow_9_10_22]. }
+  assert (Hb : (9 / 10) ^ 14 <= 1).
+  { replace 1 with (1 ^ 14) by (apply pow1). apply pow_incr. lra. }
+  assert (Ha0 : 0 <= ((9 / 10) ^ 22) ^ 17) by (apply pow_le, pow_le; lra).
+  assert (Hb0 : 0 <= (9 / 10) ^ 14) by (apply pow_le; lra).
+  assert (Hc : (1 / 10) ^ 17 = 1 / 100000000000000000) by (simpl; field).
+  rewrite Hc in Ha.
+  assert (Hprod : ((9 / 10) ^ 22) ^ 17 * (9 / 10) ^ 14 <= 1 / 100000000000000000 * 1).
+  { apply Rmult_le_compat; assumption. }
+  assert (Hfin : ((9 / 10) ^ 22) ^ 17 * (9 / 10) ^ 14 * resbound (4 / 5) 10000 11 <= 1 / 100000000000000000 * 1 * 10000).
+  { apply Rmult_le_compat; try assumption. apply Rmult_le_pos; assumption. }
+  lra.
+Qed.
+
+(** C11: a sup-norm contraction with factor <= 0.8 in at most 12 variables, whose first residual
+    is at most 1e4 (e.g. constants bounded by 1e3 and a starting point bounded by 5e3), is solved
+    within the default cap of 400 whenever the tolerance is at least 1e-8. *)
+Theorem contraction_converges (n : nat) (F : vec -> vec) (q tol D : R) (u0 : vec) :
+  (n <= 12)%nat -> 0 <= q <= 4 / 5 -> lipschitz n F q -> 1 / 100000000 <= tol ->
+  0 <= D <= 10000 -> (forall i, (i < n)%nat -> Rabs (F u0 i - u0 i) <= D) ->
+  exists v m, run_loopR n F tol 400 u0 = OkR v m /\ (m <= 400)%nat.
+Proof.
+  intros Hn Hq Hlip Htol HD H0. unfold run_loopR.
+  assert (Hb : resbound q D 399 <= 1 / 1000000000000).
+  { eapply Rle_trans; [apply (resbound_mono q (4 / 5) D 10000); lra|exact resbound_399]. }
+  assert (Hb0 : 0 <= resbound q D 399) by (apply resbound_nonneg; lra).
+  apply (loopR_converges n F q tol 400 D); try lia; try lra; auto.
+  - simpl Nat.sub. lra.
+  - simpl Nat.sub. assert (Hn' : INR n <= 12).
+    { replace 12 with (INR 12) by (simpl; lra). apply le_INR. exact Hn. }
+    assert (0 <= INR n) by apply pos_INR.
+    assert (INR n * resbound q D 399 <= 12 * (1 / 1000000000000)) by (apply Rmult_le_compat; lra).
+    lra.
+Qed.
+
+(** the first residual is at most 1e4 when the constants are bounded by 1e3 and the starting
+    point (the previous period's solution) by 5e3 *)
+Lemma first_residual_bound (n : nat) (F : vec -> vec) (q : R) (u0 : vec) :
+  0 <= q <= 4 / 5 -> lipschitz n F q ->
+  (forall i, (i < n)%nat -> Rabs (F (fun _ => 0) i) <= 1000) ->
+  (forall i, (i < n)%nat -> Rabs (u0 i) <= 5000) ->
+  forall i, (i < n)%nat -> Rabs (F u0 i - u0 i) <= 10000.
+Proof.
+  intros Hq Hlip Hc Hu i Hi.
+  assert (H1 : Rabs (F u0 i - F (fun _ => 0) i) <= q * 5000).
+  { apply (Hlip u0 (fun _ => 0) 5000); [|exact Hi]. intros j Hj. rewrite Rminus_0_r. now apply Hu. }
+  replace (F u0 i - u0 i) with ((F u0 i - F (fun _ => 0) i) + F (fun _ => 0) i + - u0 i) by ring.
+  eapply Rle_trans; [apply Rabs_triang|]. eapply Rle_trans; [apply Rplus_le_compat_r, Rabs_triang|].
+  rewrite Rabs_Ropp. specialize (Hc i Hi). specialize (Hu i Hi).
+  assert (q * 5000 <= 4000) by lra. lra.
+Qed.
